@@ -28,7 +28,7 @@ PRELUDE = """
 Definition dcase := (nat * option options * pyval * obs)%%type.
 Definition run_case (D : decls) (k : dcase) : obs :=
   let '(c, ro, v, _) := k in observe (call_dataclass RE D %d c ro v).
-Definition case_ok (D : decls) (k : dcase) : bool := let '(_, _, _, e) := k in obs_eqb (run_case D k) e.
+Definition case_ok (D : decls) (k : dcase) : bool := let '(_, _, _, e) := k in obs_sim (run_case D k) e.
 Definition case_skip (D : decls) (k : dcase) : bool := obs_is_skip (run_case D k).
 """
 
